@@ -237,15 +237,8 @@ func (r *Receiver) SegmentHandlerFunc(w http.ResponseWriter, req *http.Request) 
 						}
 					}
 				}
-				if maxNrBufSegs > 0 {
-					deleteSegPath := filepath.Join(stream.trDir, fmt.Sprintf("%d%s", rsd.seqNr-maxNrBufSegs, stream.ext))
-					if fileExists(deleteSegPath) {
-						log.Debug("Deleting old segment", "path", deleteSegPath)
-						err = os.Remove(deleteSegPath)
-						if err != nil {
-							log.Warn("Failed to delete old segment", "path", deleteSegPath, "err", err)
-						}
-					}
+				if maxNrBufSegs > 0 && rsd.seqNr >= maxNrBufSegs {
+					removeOldSegments(log, stream.trDir, stream.ext, rsd.seqNr-maxNrBufSegs)
 				}
 			}
 			//TODO. Add test cases for multiple-chunks rewrite
@@ -413,6 +406,33 @@ func discardUpload(w http.ResponseWriter, req *http.Request, statusCode int) {
 // DeleteHandlerFunc is a handler for deleting segments. Not used since fixed timeshiftBufferDepth.
 func (r *Receiver) DeleteHandlerFunc(w http.ResponseWriter, req *http.Request) {
 	slog.Debug("DeleteHandlerFunc called", "url", req.URL.Path)
+}
+
+// removeOldSegments removes all media segments in trDir with sequence number up to and including lastSeqNr.
+// These are not only the ones falling out of the buffer one by one, but also segments left behind
+// before a gap in the sequence numbers or before a restart of the receiver.
+func removeOldSegments(log *slog.Logger, trDir, ext string, lastSeqNr uint32) {
+	entries, err := os.ReadDir(trDir)
+	if err != nil {
+		log.Warn("Failed to list segments", "dir", trDir, "err", err)
+		return
+	}
+	for _, entry := range entries {
+		name := entry.Name()
+		if entry.IsDir() || filepath.Ext(name) != ext {
+			continue
+		}
+		seqNr, err := strconv.ParseUint(strings.TrimSuffix(name, ext), 10, 32)
+		if err != nil || uint32(seqNr) > lastSeqNr {
+			continue // Init segment or segment inside the buffer
+		}
+		deleteSegPath := filepath.Join(trDir, name)
+		log.Debug("Deleting old segment", "path", deleteSegPath)
+		err = os.Remove(deleteSegPath)
+		if err != nil {
+			log.Warn("Failed to delete old segment", "path", deleteSegPath, "err", err)
+		}
+	}
 }
 
 func fileExists(filePath string) bool {
